@@ -9,6 +9,7 @@ import (
 	"sync"
 	"testing"
 	"testing/synctest"
+	"time"
 )
 
 // parkedG is a goroutine of the system under test waiting at a yield point.
@@ -44,12 +45,13 @@ func (s *Scheduler) Yield(site, detail string) {
 
 // RunOutcome says how a bubble ended.
 type RunOutcome struct {
-	Returned   bool   // the system call returned (or panicked, see Panic)
-	Deadlock   bool   // not returned and nothing left to schedule
-	Livelock   bool   // step budget exceeded
-	Stragglers int    // goroutines still parked at yield points after the call returned (they were drained)
-	Leak       bool   // goroutines left blocked in the bubble at its end
-	Panic      string // non-empty: the system goroutine panicked with this value
+	Returned   bool          // the system call returned (or panicked, see Panic)
+	Deadlock   bool          // not returned and nothing left to schedule, also after ten simulated minutes
+	SimTime    time.Duration // simulated time the scheduler let pass while the system waited for timers
+	Livelock   bool          // step budget exceeded
+	Stragglers int           // goroutines still parked at yield points after the call returned (they were drained)
+	Leak       bool          // goroutines left blocked in the bubble at its end
+	Panic      string        // non-empty: the system goroutine panicked with this value
 	PanicStack string
 	Crash      *simCrash // the system goroutine was killed at a crash point
 	Budget     *simBudget
@@ -97,6 +99,8 @@ func RunBubble(t *testing.T, s *Scheduler, sys func()) (out RunOutcome) {
 			}()
 			sys()
 		}()
+		idle, idleStep := time.Duration(0), time.Millisecond
+		const maxIdle = 10 * time.Minute
 		for {
 			synctest.Wait()
 			finished := false
@@ -112,11 +116,25 @@ func RunBubble(t *testing.T, s *Scheduler, sys func()) (out RunOutcome) {
 			if len(P) == 0 {
 				if finished {
 					out.Returned = true
-				} else {
-					out.Deadlock = true
+					return
 				}
+				// Nothing is parked at a yield point and the system has not returned: either it is blocked for
+				// good, or it is waiting for a timer (a back-off sleep, a lock wait with timeout). Discrete-event
+				// time: let the bubble's clock jump ahead — sleeping here makes every goroutine durably blocked, so
+				// the clock advances to the earliest timer, ours or the system's. Only when ten simulated minutes
+				// pass without anything becoming runnable is it a deadlock.
+				if idle < maxIdle {
+					d := idleStep
+					idleStep *= 2
+					idle += d
+					out.SimTime += d
+					time.Sleep(d)
+					continue
+				}
+				out.Deadlock = true
 				return
 			}
+			idle, idleStep = 0, time.Millisecond
 			if finished {
 				out.Stragglers += len(P)
 			}
